@@ -10,7 +10,7 @@ From Batchie Require Import Lib.Sexp Model.Encode Model.Screen Model.Retro Model
   Proofs.C11Lib Proofs.C11Select Proofs.C11Holdout Proofs.C13Filter Proofs.C13Optimal Proofs.C13Size
   Proofs.C13NPlate Proofs.C13SampleSeg Proofs.C13SampleSegEven Proofs.C13Shapes Proofs.C13MergeLib Proofs.C13TopBottom
   Proofs.C13MergeMin Proofs.C13MergeShapes Proofs.C11Init Proofs.C13Sparse Proofs.C13Pairwise
-  Proofs.C13SparseTerm Proofs.C13PairwiseSingles Generated.SrcRetro Proofs.C11Source Generated.SrcRetroGen Proofs.C13Source.
+  Proofs.C13SparseTerm Proofs.C13PairwiseSingles Generated.SrcRetro Proofs.C11Source Generated.SrcRetroGen Proofs.C13Source Proofs.C13SourcePairwise.
 Import ListNotations.
 
 (* ---- the models are what the source says NOW (see Props/C11.v for the full list and what is trusted) ----
@@ -153,6 +153,25 @@ Theorem C13_model_is_source_filter_dataset_to_treatments_that_appear_in_at_least
   src_combo_filter ctrl arity rows = combo_filter ctrl arity rows.
 Proof. exact src_combo_filter_is_model. Qed.
 Print Assumptions C13_model_is_source_filter_dataset_to_treatments_that_appear_in_at_least_one_combo.
+
+(* PairwisePlateGenerator._generate_plates: the combination / single-agent split, np.unique with counts, the anchor branch
+   (argsort of the negated counts, the anchor ids, both `len // subset_size`, both permutations and array_splits, setdiff1d)
+   and the plain branch, the two nested loops filling group_lookup and its sentinel entry, np.vectorize(group_lookup.get),
+   n_control and the store of rng.choice(range(num_groups), size=n_control) (always empty on a combination screen), the row
+   sort, hstack with the sample ids, np.unique(axis=0), the labelling loop, the Screen(...) of the combination experiments,
+   the `is None` return, the loop over the samples of the single-agent experiments (count, eligible plates, the raise,
+   rng.choice among them, the masked store), the second Screen(...) and combine - equal to [pairwise] for every control
+   name, subset / anchor size, screen and answer stream whose first answer, when anchors are requested, is np.argsort's
+   (positions of the unique-id array: [argsort_ok], a fact about every run - numpy's argsort returns a permutation of the
+   positions; with anchor_size <= 0 it says nothing) *)
+Theorem C13_model_is_source_pairwise_generate_plates : forall ctrl subset anchor rows ds,
+  (argsort_ok anchor (length (unique_ids ctrl (filter (is_combo ctrl) rows))) ds ->
+   src_pairwise_generate_plates ctrl subset anchor rows ds = pairwise ctrl subset anchor rows ds) /\
+  (argsort_ok anchor (length (unique_ids ctrl (filter (is_combo ctrl) (unobserved rows)))) ds ->
+   src_generate_plates (src_pairwise_generate_plates ctrl subset anchor) rows ds
+   = generate_plates (GPairwise ctrl subset anchor) rows ds).
+Proof. exact link_pairwise_generate_plates. Qed.
+Print Assumptions C13_model_is_source_pairwise_generate_plates.
 
 (* ---- sample-segregating generator ---- *)
 Theorem C13_sample_segregating_shape : forall mx rows ds out ds',
@@ -474,3 +493,11 @@ Proof. vm_compute. reflexivity. Qed.
 Example C13_pairwise_singles_bad_oracle :
   generate_plates (GPairwise [] 1 0) w_pw [DInts [1; 0]; DInts []; DNames [gen_name 1]; DNames [gen_name 1]] = Err 94%Z.
 Proof. vm_compute. reflexivity. Qed.
+(* the argsort hypothesis of the Pairwise link is satisfiable with anchors: ids 0 (a) and 1 (b), one anchor *)
+Example C13_pairwise_argsort_ok_example :
+  argsort_ok 1 (length (unique_ids [] (filter (is_combo []) w_pw))) [DInts [1; 0]; DInts [1]; DInts [0]; DInts []] /\
+  length (unique_ids [] (filter (is_combo []) w_pw)) = 2.
+Proof.
+  split; [|vm_compute; reflexivity]. intros _. exists [1; 0], [DInts [1]; DInts [0]; DInts []]. split; [reflexivity|].
+  vm_compute. repeat constructor.
+Qed.
